@@ -131,6 +131,23 @@ func seam(repo, out, mcDir string) {
 			var edits []edit
 			var cuts [][2]int // byte ranges to delete
 			ast.Inspect(f, func(n ast.Node) bool {
+				// m.Range of a sync.Map (ranged over or called): its iteration order is unspecified too
+				if sel, ok := n.(*ast.SelectorExpr); ok && sel.Sel.Name == "Range" {
+					if t := p.TypesInfo.TypeOf(sel.X); t != nil && (t.String() == "sync.Map" || t.String() == "*sync.Map") {
+						pos := p.Fset.Position(sel.Pos())
+						site := fmt.Sprintf("%s:%d", strings.TrimPrefix(file, repo+"/"), pos.Line)
+						sites = append(sites, site)
+						amp := "&"
+						if t.String() == "*sync.Map" {
+							amp = ""
+						}
+						// X.Range  ->  zzseam.SyncRange("site", &(X))
+						edits = append(edits, edit{pos.Offset, fmt.Sprintf("zzseam.SyncRange(%q, %s(", site, amp)})
+						cuts = append(cuts, [2]int{p.Fset.Position(sel.X.End()).Offset, p.Fset.Position(sel.End()).Offset})
+						edits = append(edits, edit{p.Fset.Position(sel.End()).Offset, "))"})
+					}
+					return true
+				}
 				if call, ok := n.(*ast.CallExpr); ok {
 					// v.MapKeys() / v.MapRange() / v.Seq2() on a reflect.Value: reflect's map iteration is random too
 					if sel, ok := call.Fun.(*ast.SelectorExpr); ok && len(call.Args) == 0 && (sel.Sel.Name == "MapKeys" || sel.Sel.Name == "MapRange" || sel.Sel.Name == "Seq2") {
